@@ -64,7 +64,7 @@ def unions(tier):
         out.append({"variants": list(sel), "disc": "none", "nullable": False, "kw": "anyOf"})
     for k in (2, 3):
         for sel in itertools.permutations(OBJECTS, k):
-            for disc in ("mapping", "implicit"):
+            for disc in ("mapping", "mapping2", "implicit"):
                 out.append({"variants": list(sel), "disc": disc, "nullable": False, "kw": "oneOf"})
     return out
 
@@ -99,8 +99,11 @@ def build_doc(us):
         s = {u["kw"]: members}
         if u["nullable"]:
             s["nullable"] = True
-        if u["disc"] == "mapping":
+        if u["disc"] in ("mapping", "mapping2"):
             s["discriminator"] = {"propertyName": "kind", "mapping": {v.lower(): "#/components/schemas/" + twin(v, i) for v in u["variants"]}}
+            if u["disc"] == "mapping2":
+                # non-injective mapping: a second discriminator value for the first variant
+                s["discriminator"]["mapping"]["alt"] = "#/components/schemas/" + twin(u["variants"][0], i)
         elif u["disc"] == "implicit":
             s["discriminator"] = {"propertyName": "kind"}
         schemas[f"U{i}"] = s
@@ -116,10 +119,14 @@ def payloads(u, i=0):
             if u["disc"] == "none":
                 out.append((f"{v}:{json.dumps(p)}", p, {}))
             else:
-                val = v.lower() if u["disc"] == "mapping" else twin(v, i)
+                val = v.lower() if u["disc"] in ("mapping", "mapping2") else twin(v, i)
                 q = dict(p)
                 q["kind"] = val
                 out.append((f"{v}:{json.dumps(p)}+kind", q, {"class": twin(v, i)}))
+                if u["disc"] == "mapping2" and v == u["variants"][0]:
+                    q2 = dict(p)
+                    q2["kind"] = "alt"
+                    out.append((f"{v}:{json.dumps(p)}+kind=alt", q2, {"class": twin(v, i)}))
     if u["nullable"]:
         out.append(("null", None, {}))
     if u["disc"] != "none":
@@ -127,7 +134,7 @@ def payloads(u, i=0):
         for v in u["variants"]:
             req = VARIANTS[v][0].get("required", [])
             if req:
-                val = v.lower() if u["disc"] == "mapping" else twin(v, i)
+                val = v.lower() if u["disc"] in ("mapping", "mapping2") else twin(v, i)
                 # payload of a mapped variant that lacks its required fields but would fit another variant
                 other = {"c": True, "b": 2} if "a" in req else {"a": "x", "c": True}
                 q = dict(other)
